@@ -26,7 +26,7 @@ from fractions import Fraction
 import py2lean
 from py2lean import Unsupported, Fn, parse_type as _parse_type, lean_name
 
-SCAL = ('Int', 'Rat', 'Bool')
+SCAL = ('Int', 'Rat', 'Bool', 'Cx')      # Cx: complex double or NaN (runtime type `Cx`)
 
 # (relative file, Lean namespace, container class or None, [(function, signature)])
 NP_KERNELS = [
@@ -279,6 +279,67 @@ NP_KERNELS = [
                                        externals={'mh.msm.peq': ('ext_peq', ['L[L[Rat]]'], 'L[Rat]')},
                                        extra_params=[('cfg_disable_jit', 'Bool')])),
     ]),
+    ('msm/utils/linalg.py', 'MsmLinalg', None, [
+        # the eigen-solver wrappers: LAPACK (`np.linalg.eig`) and the sorting permutation (`argsort`) are oracles, values are complex doubles `Cx`;
+        # every function once for an integer `nvals` and once for `nvals=None`
+        ('_eigenvectors', dict(
+            lean_name='eigenvectors_n', ret='T[L[Cx],L[L[Cx]]]', not_none=['nvals'], param_names=['matrix', 'nvals'], params=['L[L[Rat]]', 'Int'],
+            rewrite_stmts={'idx_eigenvalues = eigenvalues.argsort()[::-1]': 'idx_eigenvalues = np.argsort(eigenvalues)[::-1]'},
+            externals={'np.linalg.eig': ('ext_eig', ['L[L[Rat]]'], 'T[L[Cx],L[L[Cx]]]'), 'np.argsort': ('ext_argsort_cx', ['L[Cx]'], 'L[Int]')})),
+        ('_eigenvectors', dict(
+            lean_name='eigenvectors_all', ret='T[L[Cx],L[L[Cx]]]', consts={'nvals': None}, param_names=['matrix'], params=['L[L[Rat]]'],
+            rewrite_stmts={'idx_eigenvalues = eigenvalues.argsort()[::-1]': 'idx_eigenvalues = np.argsort(eigenvalues)[::-1]'},
+            externals={'np.linalg.eig': ('ext_eig', ['L[L[Rat]]'], 'T[L[Cx],L[L[Cx]]]'), 'np.argsort': ('ext_argsort_cx', ['L[Cx]'], 'L[Int]')})),
+        ('_eigenvalues', dict(lean_name='eigenvalues_n', ret='L[Cx]', not_none=['nvals'], param_names=['matrix', 'nvals'], params=['L[L[Rat]]', 'Int'],
+            xcalls={'_eigenvectors': ('MsmLinalg', 'eigenvectors_n')},
+            externals={'decl__eig': ('ext_eig', ['L[L[Rat]]'], 'T[L[Cx],L[L[Cx]]]'), 'decl__argsort': ('ext_argsort_cx', ['L[Cx]'], 'L[Int]')})),
+        ('_eigenvalues', dict(lean_name='eigenvalues_all', ret='L[Cx]', consts={'nvals': None}, param_names=['matrix'], params=['L[L[Rat]]'],
+            xcalls={'_eigenvectors': ('MsmLinalg', 'eigenvectors_all')},
+            externals={'decl__eig': ('ext_eig', ['L[L[Rat]]'], 'T[L[Cx],L[L[Cx]]]'), 'decl__argsort': ('ext_argsort_cx', ['L[Cx]'], 'L[Int]')})),
+        ('left_eigenvectors', dict(lean_name='left_eigenvectors_n', ret='T[L[Cx],L[L[Cx]]]', not_none=['nvals'], param_names=['matrix', 'nvals'], params=['L[L[Rat]]', 'Int'],
+            xcalls={'_eigenvectors': ('MsmLinalg', 'eigenvectors_n')},
+            externals={'decl__eig': ('ext_eig', ['L[L[Rat]]'], 'T[L[Cx],L[L[Cx]]]'), 'decl__argsort': ('ext_argsort_cx', ['L[Cx]'], 'L[Int]')})),
+        ('left_eigenvectors', dict(lean_name='left_eigenvectors_all', ret='T[L[Cx],L[L[Cx]]]', consts={'nvals': None}, param_names=['matrix'], params=['L[L[Rat]]'],
+            xcalls={'_eigenvectors': ('MsmLinalg', 'eigenvectors_all')},
+            externals={'decl__eig': ('ext_eig', ['L[L[Rat]]'], 'T[L[Cx],L[L[Cx]]]'), 'decl__argsort': ('ext_argsort_cx', ['L[Cx]'], 'L[Int]')})),
+        ('right_eigenvectors', dict(lean_name='right_eigenvectors_n', ret='T[L[Cx],L[L[Cx]]]', not_none=['nvals'], param_names=['matrix', 'nvals'], params=['L[L[Rat]]', 'Int'],
+            xcalls={'_eigenvectors': ('MsmLinalg', 'eigenvectors_n')},
+            externals={'decl__eig': ('ext_eig', ['L[L[Rat]]'], 'T[L[Cx],L[L[Cx]]]'), 'decl__argsort': ('ext_argsort_cx', ['L[Cx]'], 'L[Int]')})),
+        ('right_eigenvectors', dict(lean_name='right_eigenvectors_all', ret='T[L[Cx],L[L[Cx]]]', consts={'nvals': None}, param_names=['matrix'], params=['L[L[Rat]]'],
+            xcalls={'_eigenvectors': ('MsmLinalg', 'eigenvectors_all')},
+            externals={'decl__eig': ('ext_eig', ['L[L[Rat]]'], 'T[L[Cx],L[L[Cx]]]'), 'decl__argsort': ('ext_argsort_cx', ['L[Cx]'], 'L[Int]')})),
+        ('left_eigenvalues', dict(lean_name='left_eigenvalues_n', ret='L[Cx]', not_none=['nvals'], param_names=['matrix', 'nvals'], params=['L[L[Rat]]', 'Int'],
+            xcalls={'_eigenvalues': ('MsmLinalg', 'eigenvalues_n')},
+            externals={'decl__eig': ('ext_eig', ['L[L[Rat]]'], 'T[L[Cx],L[L[Cx]]]'), 'decl__argsort': ('ext_argsort_cx', ['L[Cx]'], 'L[Int]')})),
+        ('left_eigenvalues', dict(lean_name='left_eigenvalues_all', ret='L[Cx]', consts={'nvals': None}, param_names=['matrix'], params=['L[L[Rat]]'],
+            xcalls={'_eigenvalues': ('MsmLinalg', 'eigenvalues_all')},
+            externals={'decl__eig': ('ext_eig', ['L[L[Rat]]'], 'T[L[Cx],L[L[Cx]]]'), 'decl__argsort': ('ext_argsort_cx', ['L[Cx]'], 'L[Int]')})),
+        ('right_eigenvalues', dict(lean_name='right_eigenvalues_n', ret='L[Cx]', not_none=['nvals'], param_names=['matrix', 'nvals'], params=['L[L[Rat]]', 'Int'],
+            xcalls={'_eigenvalues': ('MsmLinalg', 'eigenvalues_n')},
+            externals={'decl__eig': ('ext_eig', ['L[L[Rat]]'], 'T[L[Cx],L[L[Cx]]]'), 'decl__argsort': ('ext_argsort_cx', ['L[Cx]'], 'L[Int]')})),
+        ('right_eigenvalues', dict(lean_name='right_eigenvalues_all', ret='L[Cx]', consts={'nvals': None}, param_names=['matrix'], params=['L[L[Rat]]'],
+            xcalls={'_eigenvalues': ('MsmLinalg', 'eigenvalues_all')},
+            externals={'decl__eig': ('ext_eig', ['L[L[Rat]]'], 'T[L[Cx],L[L[Cx]]]'), 'decl__argsort': ('ext_argsort_cx', ['L[Cx]'], 'L[Int]')})),
+    ]),
+    ('msm/timescales.py', 'MsmIts', None, [
+        # one row of implied timescales: `np.log` is an oracle (no rational logarithm), NaN is a value of `Cx`
+        ('_implied_timescales', dict(
+            ret='L[Cx]', params=['L[L[Rat]]', 'Int', 'Int'], param_names=['tmat', 'lagtime', 'ntimescales'],
+            xcalls={'linalg.left_eigenvalues': ('MsmLinalg', 'left_eigenvalues_n')},
+            externals={'np.log': ('ext_log', ['L[Cx]'], 'L[Cx]'),
+                       'decl__eig': ('ext_eig', ['L[L[Rat]]'], 'T[L[Cx],L[L[Cx]]]'), 'decl__argsort': ('ext_argsort_cx', ['L[Cx]'], 'L[Int]')})),
+        # the public function, once for the default number of timescales and once for a given one; the estimator of the object is an oracle
+        ('implied_timescales', dict(lean_name='implied_timescales_default', ret='L[L[Cx]]', consts={'ntimescales': None}, param_names=['trajs_nstates', 'lagtimes', 'reversible'], params=['Int', 'L[Int]', 'Bool'],
+            objects={'trajs': {'attrs': {'nstates': 'Int'}}}, facts={'np.issubdtype(lagtimes.dtype, np.integer)': True},
+            locals={'impl_timescales': 'L[L[Cx]]'}, real_arrays=['impl_timescales'],
+            externals={'trajs.estimate_markov_model': ('ext_estimate', ['Int'], 'T[L[L[Rat]],L[Int]]', ['lagtime']), 'decl__log': ('ext_log', ['L[Cx]'], 'L[Cx]'),
+                       'decl__eig': ('ext_eig', ['L[L[Rat]]'], 'T[L[Cx],L[L[Cx]]]'), 'decl__argsort': ('ext_argsort_cx', ['L[Cx]'], 'L[Int]')})),
+        ('implied_timescales', dict(lean_name='implied_timescales_n', ret='L[L[Cx]]', not_none=['ntimescales'], param_names=['trajs_nstates', 'lagtimes', 'ntimescales', 'reversible'], params=['Int', 'L[Int]', 'Int', 'Bool'],
+            objects={'trajs': {'attrs': {'nstates': 'Int'}}}, facts={'np.issubdtype(lagtimes.dtype, np.integer)': True},
+            locals={'impl_timescales': 'L[L[Cx]]'}, real_arrays=['impl_timescales'],
+            externals={'trajs.estimate_markov_model': ('ext_estimate', ['Int'], 'T[L[L[Rat]],L[Int]]', ['lagtime']), 'decl__log': ('ext_log', ['L[Cx]'], 'L[Cx]'),
+                       'decl__eig': ('ext_eig', ['L[L[Rat]]'], 'T[L[Cx],L[L[Cx]]]'), 'decl__argsort': ('ext_argsort_cx', ['L[Cx]'], 'L[Int]')})),
+    ]),
 ]
 
 # calls of translated functions of OTHER modules: dotted python name -> (namespace, function)
@@ -296,6 +357,7 @@ XREF = {
     'mh.utils.tests.is_ergodic': ('UtilsTests', 'is_ergodic'),
     'tests.is_ergodic': ('UtilsTests', 'is_ergodic'),
     'tests.ergodic_mask': ('UtilsTests', 'ergodic_mask'),
+    'tests.is_quadratic': ('UtilsTests', 'is_quadratic'),
 }
 SCALAR = {
     '_intersect_array': ('MdComparison', 'intersect_array', True, ['L[L[Int]]', 'L[L[Int]]'], 'L[L[Rat]]'),
@@ -671,6 +733,10 @@ class NpFn(Fn):
             return code
         if frm == 'Int' and to == 'Rat':
             return '((%s : Int) : Rat)' % code
+        if frm == 'Rat' and to == 'Cx':
+            return '(cxOfRat %s)' % code
+        if frm == 'Int' and to == 'Cx':
+            return '(cxOfRat ((%s : Int) : Rat))' % code
         if (is_vec(frm) and is_vec(to)) or (is_col(frm) and is_col(to)):
             if frm[1] == 'Int' and to[1] == 'Rat':
                 return '((%s).map (fun (x_ : Int) => (x_ : Rat)))' % code
@@ -765,6 +831,8 @@ class NpFn(Fn):
             return pre, rat_lit(e.value), 'Rat'
         if isinstance(e, ast.Name) and e.id in self.rename:
             return pre, self.rename[e.id], self.env[e.id]
+        if isinstance(e, ast.Attribute) and e.attr == 'nan' and isinstance(e.value, ast.Name) and e.value.id == 'np':
+            return pre, 'cxNan', 'Cx'
         if isinstance(e, ast.Attribute):
             if isinstance(e.value, ast.Name) and e.value.id == 'self':
                 nm = 'self_' + e.attr.lstrip('_')
@@ -856,14 +924,23 @@ class NpFn(Fn):
             a, ta = sub(e.left)
             b, tb = sub(e.comparators[0])
             if ta in SCAL and tb in SCAL:
-                if ta == tb or {ta, tb} == {'Int', 'Rat'}:
+                if ta == tb or {ta, tb} == {'Int', 'Rat'} or 'Cx' in (ta, tb):
                     pass
                 else:
                     raise Unsupported('%s: comparing %s with %s' % (self.name, ta, tb))
             ea, eb = elem(ta), elem(tb)
+            o = e.ops[0]
+            if 'Cx' in (ea, eb):
+                # complex (or NaN-carrying) elements: numpy's lexicographic ordering, false for NaN
+                fn = {ast.Lt: 'cxLt', ast.LtE: 'cxLe', ast.Gt: 'cxGt', ast.GtE: 'cxGe'}.get(type(o))
+                if fn is None or 'Bool' in (ea, eb):
+                    raise Unsupported('%s: comparison of complex values' % self.name)
+                cx = lambda v, t_: v if t_ == 'Cx' else ('(cxOfRat %s)' % v if t_ == 'Rat' else '(cxOfRat ((%s : Int) : Rat))' % v)
+                body = '%s %s %s' % (fn, cx('§x', ea), cx('§y', eb))
+                c, t = self.elementwise(pre, a, ta, b, tb, body, 'Bool', dry)
+                return pre, c, t
             x = '§x' if (ea == eb or ea == 'Rat') else '((§x : Int) : Rat)'
             y = '§y' if (ea == eb or eb == 'Rat') else '((§y : Int) : Rat)'
-            o = e.ops[0]
             sym = {ast.Lt: '<', ast.LtE: '≤', ast.Gt: '>', ast.GtE: '≥'}.get(type(o))
             if sym is None and not isinstance(o, (ast.Eq, ast.NotEq)):
                 raise Unsupported('%s: comparison operator' % self.name)
@@ -937,7 +1014,7 @@ class NpFn(Fn):
             if ts == ('L', 'Int'):
                 v, tv = sub(e.value)
                 m, _ = sub(sl)
-                if not is_vec(tv):
+                if not (is_vec(tv) or is_mat(tv)):
                     raise Unsupported('%s: fancy read of %s' % (self.name, tv))
                 c, t = eff('npTake %s %s' % (v, m), tv)
                 return pre, c, t
@@ -1227,6 +1304,8 @@ class NpFn(Fn):
                 if isinstance(shape, ast.Tuple) and len(shape.elts) == 2:
                     a, _ = sub(shape.elts[0])
                     b, _ = sub(shape.elts[1])
+                    if want == ('L', ('L', 'Cx')):      # a float array that will hold NaNs
+                        return pre, '(pyFull2 %s %s (cxOfRat 0))' % (a, b), want
                     return pre, '(pyFull2 %s %s (0 : Rat))' % (a, b), ('L', ('L', 'Rat'))
                 a, _ = sub(shape)
                 return pre, '(pyFull1 %s (0 : Rat))' % a, ('L', 'Rat')
@@ -1253,6 +1332,35 @@ class NpFn(Fn):
                     b, _ = sub(args[1])
                     return pre, '(npArange %s %s)' % (a, b), ('L', 'Int')
                 raise Unsupported('arange with step')
+            if (name == 'np.transpose' and len(args) == 1 and not kw) or (meth == 'transpose' and not args and not kw and name not in self.externals):
+                c, t = sub(args[0] if args else e.func.value)
+                if not is_mat(t):
+                    raise Unsupported('%s: transpose of %s' % (self.name, t))
+                return pre, '(npTranspose %s)' % c, t
+            if name == 'np.real' and len(args) == 1 and not kw:
+                c, t = sub(args[0])
+                if elem(t) != 'Cx':
+                    raise Unsupported('%s: np.real of %s' % (self.name, t))
+                if t == 'Cx':
+                    return pre, '(cxReal %s)' % c, t
+                if is_mat(t):
+                    return pre, '((%s).map (fun r_ => r_.map cxReal))' % c, t
+                return pre, '((%s).map cxReal)' % c, t
+            if name == 'np.real_if_close' and len(args) == 1 and not kw:
+                c, t = sub(args[0])
+                if t == ('L', 'Cx'):
+                    return pre, '(npRealIfClose1 %s)' % c, t
+                if t == ('L', ('L', 'Cx')):
+                    return pre, '(npRealIfClose2 %s)' % c, t
+                raise Unsupported('%s: np.real_if_close of %s' % (self.name, t))
+            if meth == 'filled' and len(args) == 1 and isinstance(e.func.value, ast.Call) and self._callname(e.func.value) == 'np.ma.divide' \
+                    and len(e.func.value.args) == 2 and isinstance(args[0], ast.Attribute) and args[0].attr == 'nan':
+                # np.ma.divide(a, z).filled(np.nan): masked (→ NaN) where the quotient is not finite or the divisor is zero
+                a, ta = sub(e.func.value.args[0])
+                z, tz = sub(e.func.value.args[1])
+                if ta not in ('Int', 'Rat') or tz != ('L', 'Cx'):
+                    raise Unsupported('%s: np.ma.divide of %s by %s' % (self.name, ta, tz))
+                return pre, '(npMaDivideFilledNan %s %s)' % (self.coerce(a, ta, 'Rat'), z), tz
             if name == 'np.linalg.inv':
                 c, t = sub(args[0])
                 R = ('L', ('L', 'Rat'))
@@ -1732,6 +1840,8 @@ class NpFn(Fn):
                         pv, cv, tv = self.ex(s.value)
                         if is_vec(tv):
                             emit_pre(pi); emit_pre(pv)
+                            if t.value.id in self.sig.get('real_arrays', []) and tv == ('L', 'Cx'):
+                                cv = '((%s).map cxReal)' % cv      # a float array: numpy stores the real part of a complex value
                             out.append(sp + '%s ← npSetRow %s %s %s' % (arr, arr, ci, self.coerce(cv, tv, ta[1])))
                             return out
                 if not isinstance(sl, (ast.Slice, ast.Tuple)) and is_vec(ta) and self.typeof(sl) == ('L', 'Int'):
@@ -1964,7 +2074,10 @@ EXT_IMPL = {'ext_peq': 'MsmVerif.GenCodec.oracleVec "peq"', 'ext_argsort': 'MsmV
             'ext_propagate_echo': 'MsmVerif.GenCodec.oracleEchoCummat "propagate"',
             'ext_opentxt': 'MsmVerif.GenCodec.oracleConst "opentxt"',
             'ext_get_cummat': 'MsmVerif.GenCodec.oracleConst "cummat"',
-            'ext_estimator': 'MsmVerif.GenCodec.oracleConst5 "estimator"'}
+            'ext_estimator': 'MsmVerif.GenCodec.oracleConst5 "estimator"',
+            'ext_eig': 'MsmVerif.GenCodec.oracleTableKey "eig"',
+            'ext_argsort_cx': 'MsmVerif.GenCodec.oracleTableKey "argsort_cx"',
+            'ext_log': 'MsmVerif.GenCodec.oracleElemwise "log"'}
 
 
 def translate_all(repo, files, probs):
